@@ -322,6 +322,47 @@ func evalGlobalExpression(m *ir.Module, handle ir.ExpressionHandle, overrideValu
 
 // evalBinaryOp evaluates a binary operation on two literal values.
 func evalBinaryOp(op ir.BinaryOperator, left, right ir.LiteralValue) ir.LiteralValue {
+	// 32-bit integers are folded with wrapping integer arithmetic: a float64
+	// product is inexact beyond 2^53 and int32(result) saturates, while WGSL
+	// integer arithmetic wraps. Division by zero and INT_MIN / -1 stay unfolded.
+	if l, ok := left.(ir.LiteralI32); ok {
+		if r, ok := right.(ir.LiteralI32); ok {
+			x, y := int32(l), int32(r)
+			switch op {
+			case ir.BinaryAdd:
+				return ir.LiteralI32(x + y)
+			case ir.BinarySubtract:
+				return ir.LiteralI32(x - y)
+			case ir.BinaryMultiply:
+				return ir.LiteralI32(x * y)
+			case ir.BinaryDivide:
+				if y == 0 || (x == -2147483648 && y == -1) {
+					return nil
+				}
+				return ir.LiteralI32(x / y)
+			}
+			return nil
+		}
+	}
+	if l, ok := left.(ir.LiteralU32); ok {
+		if r, ok := right.(ir.LiteralU32); ok {
+			x, y := uint32(l), uint32(r)
+			switch op {
+			case ir.BinaryAdd:
+				return ir.LiteralU32(x + y)
+			case ir.BinarySubtract:
+				return ir.LiteralU32(x - y)
+			case ir.BinaryMultiply:
+				return ir.LiteralU32(x * y)
+			case ir.BinaryDivide:
+				if y == 0 {
+					return nil
+				}
+				return ir.LiteralU32(x / y)
+			}
+			return nil
+		}
+	}
 	// Get f64 values from both operands.
 	lf, lok := literalToFloat64(left)
 	rf, rok := literalToFloat64(right)
